@@ -52,7 +52,18 @@ fn main() {
     let args = parse_args();
     let rep: Arc<Report> =
         Report::new(&args.prop.to_uppercase(), &args.tier, args.seed, args.report.clone(), args.replay.is_some());
-    let known = props::dispatch(&args, &rep);
+    // safety net: a panic of the subject outside a guarded call is an observation, any other is a machinery error
+    let known = match panicx::catch(|| props::dispatch(&args, &rep)) {
+        Ok(k) => k,
+        Err(p) => {
+            if p.in_subject() {
+                rep.violation_conclusive(&p.class(), &format!("the library panicked: {}", p.describe()), serde_json::json!({"unguarded_call": args.prop, "replay": args.replay}), 0);
+            } else {
+                rep.machinery_error(&format!("engine panic: {}", p.describe()));
+            }
+            true
+        }
+    };
     if !known {
         eprintln!("unknown property {}", args.prop);
         std::process::exit(2);
